@@ -14,7 +14,9 @@ import (
 	"strings"
 
 	"0chain.net/chaincore/client"
+	"0chain.net/chaincore/transaction"
 	"0chain.net/core/encryption"
+	"0chain.net/smartcontract/storagesc"
 	"golang.org/x/crypto/ed25519"
 	"golang.org/x/crypto/sha3"
 	"verifharness/lib/corr"
@@ -101,6 +103,85 @@ func (s *state) showClient(c *client.Client) string {
 	return r + " idBAD"
 }
 
+// spelling: the named spellings of an id (the same definitions as Sig.spelling in the Lean model).
+func spelling(v, id string) (string, bool) {
+	isLetter := func(c byte) bool { return c >= 'a' && c <= 'f' }
+	flipFrom := func(b []byte, k int) []byte {
+		for i := k; i < len(b); i++ {
+			if isLetter(b[i]) {
+				b[i] -= 32
+				break
+			}
+		}
+		return b
+	}
+	b := []byte(id)
+	switch v {
+	case "canon":
+		return id, true
+	case "upper":
+		return strings.ToUpper(id), true
+	case "flipfirst":
+		return string(flipFrom(b, 0)), true
+	case "flipmid":
+		return string(flipFrom(b, 32)), true
+	case "fliplast":
+		for i := len(b) - 1; i >= 0; i-- {
+			if isLetter(b[i]) {
+				b[i] -= 32
+				break
+			}
+		}
+		return string(b), true
+	case "0x":
+		return "0x" + id, true
+	case "sptrail":
+		return id + " ", true
+	case "splead":
+		return " " + id, true
+	case "d63":
+		return id[1:], true
+	case "odd":
+		return id[:len(id)-1], true
+	case "d65":
+		return id + "0", true
+	case "d65b":
+		return "0" + id, true
+	case "d62":
+		return id[2:], true
+	}
+	return "", false
+}
+
+// idcheck: does the entry point accept the pair (public key, id)?
+func idcheck(entry, pk, id string) (bool, bool) {
+	switch entry {
+	case "vpk":
+		return encryption.VerifyPublicKeyClientID(pk, id) == nil, true
+	case "txn":
+		t := &transaction.Transaction{PublicKey: pk, ClientID: id}
+		return t.ComputeClientID() == nil && t.ClientID == id, true
+	case "txnprops":
+		t := &transaction.Transaction{PublicKey: pk, ClientID: id, ChainID: "verif-chain"}
+		return t.ComputeProperties() == nil && t.ClientID == id, true
+	case "client":
+		c := client.NewClient()
+		if err := c.ComputeProperties(); err == nil && c.PublicKey == "" {
+			// (an empty client has nothing to compute)
+		}
+		c.PublicKey = pk
+		if err := c.ComputeProperties(); err != nil {
+			return false, true
+		}
+		c.ID = id // a record that claims this id for this key
+		return c.Validate(context.Background()) == nil, true
+	case "vticket":
+		vt := &storagesc.ValidationTicket{ChallengeID: "c", BlobberID: "b", ValidatorID: id, ValidatorKey: pk}
+		return vt.Validate("c", "b") == nil, true
+	}
+	return false, false
+}
+
 func (s *state) pushE(sig string) string {
 	idx := len(s.esigs)
 	s.esigs = append(s.esigs, sig)
@@ -112,6 +193,35 @@ func (s *state) step(ws []string) string {
 		return "bad-op"
 	}
 	switch {
+	case ws[0] == "idcheck" && (len(ws) == 4 || len(ws) == 5):
+		k, _, ok := s.anyKey(ws[2])
+		k2 := k
+		ok2 := true
+		if len(ws) == 5 {
+			k2, _, ok2 = s.anyKey(ws[4])
+		}
+		if !ok || !ok2 {
+			return "bad-op"
+		}
+		canon, err := client.GetIDFromPublicKey(k2.GetPublicKey())
+		if err != nil {
+			return "err"
+		}
+		// the canonical id itself is re-derived independently (sha3-256 of the key bytes, lower-case hex)
+		pkb, _ := hex.DecodeString(k2.GetPublicKey())
+		h := sha3.Sum256(pkb)
+		if canon != hex.EncodeToString(h[:]) {
+			return "idBAD"
+		}
+		if _, known := map[string]bool{"vpk": true, "txn": true, "txnprops": true, "client": true, "vticket": true}[ws[1]]; !known {
+			return "bad-op"
+		}
+		id, okv := spelling(ws[3], canon)
+		if !okv {
+			return "bad-op"
+		}
+		r, _ := idcheck(ws[1], k.GetPublicKey(), id)
+		return strconv.FormatBool(r)
 	case ws[0] == "cnew" && len(ws) == 2:
 		s.clients[ws[1]] = client.NewClient()
 		return "ok"
@@ -411,6 +521,7 @@ func genCase(r *rand.Rand, thorough bool, i int) []string {
 		for x := 0; x < 3; x++ {
 			add("clientcheck k%d k%d", r.Intn(nk), r.Intn(nk))
 		}
+		genIdChecks(r, add, "k", nk)
 		// ONE client object whose key changes: set, set another, scheme object, decode + ComputeProperties; also ed25519 keys
 		add("ekey e0 %d", r.Intn(1<<20))
 		add("cnew c")
@@ -470,6 +581,7 @@ func genCase(r *rand.Rand, thorough bool, i int) []string {
 		for k := 0; k < nk; k++ {
 			add("eclient e%d", k)
 		}
+		genIdChecks(r, add, "e", nk)
 		add("cnew c")
 		for x := 0; x < 2+r.Intn(4); x++ {
 			add("%s c e%d", []string{"csetpk", "csetscheme", "cdecode"}[r.Intn(3)], r.Intn(nk))
@@ -479,8 +591,29 @@ func genCase(r *rand.Rand, thorough bool, i int) []string {
 	return ops
 }
 
+var idEntries = []string{"vpk", "txn", "txnprops", "client", "vticket"}
+var idVariants = []string{"canon", "upper", "flipfirst", "flipmid", "fliplast", "0x", "sptrail", "splead", "d63", "odd", "d65", "d65b", "d62"}
+
+// genIdChecks: (public key, id) pairs through every entry point that checks them: the right id in its canonical and in
+// non-canonical spellings, and the id of another key (also spelled differently).
+func genIdChecks(r *rand.Rand, add func(string, ...interface{}), prefix string, nk int) {
+	for x := 0; x < 6+r.Intn(6); x++ {
+		e := idEntries[r.Intn(len(idEntries))]
+		k := r.Intn(nk)
+		v := idVariants[r.Intn(len(idVariants))]
+		if r.Intn(4) == 0 {
+			v = "canon"
+		}
+		if r.Intn(4) == 0 {
+			add("idcheck %s %s%d %s %s%d", e, prefix, k, v, prefix, r.Intn(nk))
+		} else {
+			add("idcheck %s %s%d %s", e, prefix, k, v)
+		}
+	}
+}
+
 func genMalformed(r *rand.Rand) []string {
-	return []string{"dkg 0 0", "key k 5", "msg a 3", "client nokey", "clientcheck k nokey", "csetpk c k", "cnew c", "csetpk c nokey", "cverify c 0 a", "kdirect k 9 a", "msgb z zz 3", "msgb z abc 3", "ekey e x", "esign e a", "ekey e 1", "esign e nomsg", "etamper 0", "everify e 0 a", "eclient f", "kverify k 0 a", "frob"}
+	return []string{"dkg 0 0", "key k 5", "msg a 3", "client nokey", "clientcheck k nokey", "idcheck vpk k canon", "idcheck foo k canon", "idcheck vpk k weird", "idcheck vpk nokey canon", "csetpk c k", "cnew c", "csetpk c nokey", "cverify c 0 a", "kdirect k 9 a", "msgb z zz 3", "msgb z abc 3", "ekey e x", "esign e a", "ekey e 1", "esign e nomsg", "etamper 0", "everify e 0 a", "eclient f", "kverify k 0 a", "frob"}
 }
 
 func genAll(r *rand.Rand, thorough bool, i int) []string {
@@ -488,6 +621,17 @@ func genAll(r *rand.Rand, thorough bool, i int) []string {
 		return genMalformed(r)
 	}
 	return genCase(r, thorough, i)
+}
+
+func idFixed() []string {
+	ops := []string{"dkg 0 0", "key k0 5", "key k1 7", "ekey e0 3"}
+	for _, e := range idEntries {
+		for _, v := range idVariants {
+			ops = append(ops, fmt.Sprintf("idcheck %s k0 %s", e, v))
+		}
+		ops = append(ops, fmt.Sprintf("idcheck %s k0 canon k1", e), fmt.Sprintf("idcheck %s k0 upper k1", e), fmt.Sprintf("idcheck %s e0 canon", e), fmt.Sprintf("idcheck %s e0 upper", e), fmt.Sprintf("idcheck %s e0 fliplast", e))
+	}
+	return ops
 }
 
 func main() {
@@ -502,6 +646,8 @@ func main() {
 		Fixed: [][]string{
 			{"dkg 0 0", "msg a 3", "msg b 4", "key k0 5", "key k1 7", "key k2 16798108731015832284940804142231733909759579603404752749028378864165570215954",
 				"ksign k0 a", "kverify k0 0 a", "kverify k1 0 a", "kverify k0 0 b", "kverify k2 0 a", "client k0", "client k1", "client k2", "clientcheck k0 k2", "clientcheck k0 k1"},
+			// every entry point x every spelling of the right id, and the id of another key
+			idFixed(),
 			// one client object, two keys one after the other, through every way of setting a key
 			{"dkg 0 0", "key k0 5", "key k1 7", "ekey e0 3", "cnew c", "cstatus c", "csetpk c k0", "csetpk c k1", "cstatus c", "csetscheme c k0", "cdecode c k1", "csetpk c e0", "cdecode c k0", "cstatus c",
 				"cnew d", "cdecode d k0", "cdecode d k1", "csetscheme d k0"},
